@@ -460,13 +460,19 @@ TRUSTED_BASE = [
     'tools/cxx2c.py lowering rules C++ AST -> C (classes->structs, references->pointers, temporaries hoisted, RAII destructors made explicit, forward/move as identity)',
     'CBMC 6.11.0, goto-instrument DFCC contract instrumentation, CaDiCaL (SAT back end)',
     'x86-64 type sizes; C semantics of fixed-width integer arithmetic equal to C++ for the lowered expressions',
-    'parametricity: a function lowered with symbolic constants stands for all instantiations that differ only in those constants (explicit specialisations are lowered separately)',
+    'parametricity: a function lowered with symbolic constants stands for all instantiations that differ only in those constants (explicit specialisations are lowered separately; '
+    'witnessed builds: int payload / no payload type / payload larger than its alignment, logging on / verbose / compiled out, reference / value context, manual / automatic activation, '
+    'states defining all / one / no callbacks; other user state types, payload types and feature-switch combinations are covered by this assumption only)',
+    'gcc 12 for the native cross-check of the symbolic-constant bindings on the witness values',
 ]
 ASSUMPTIONS = [
     'symbolic constants range over the values stated in each unit (e.g. capacity 1..255); bindings between constants of different classes are checked against the concrete witness instantiation, not proved',
     'user callbacks and the logger are modelled by contract stubs: any terminating code that acts on the machine only through the control object it is handed; no re-entrant calls into the machine',
     'FFSM2_ASSERT is inert on GCC/Clang; asserted preconditions are written as requires where the contract needs them',
     'termination of callbacks is assumed',
+    'contracts restated at a caller\'s abstraction level (coverage.assumed_contracts, status instance-or-restated) are implied by the enforced ones by construction of the contract generators or by '
+    'inspection, not by a machine-checked lemma; the preconditions of the plan step on the plan data (well-formed plan, unlocked control) are not established by the R_ units, for which the plan data is opaque',
+    'units labelled bounded (task capacity, injections k = 3, payload types int / P8, substitution limit <= 3 in the inlined stand-ins) are complete only within the stated bound',
 ]
 
 if __name__ == '__main__':
